@@ -99,7 +99,11 @@ def phase_pair(name):
     for k, kw in enumerate(PH):
         if name.endswith(" " + kw):
             pre = name[: -len(kw) - 1]
-            if any(w in pre for w in PH):
+            # a DMA keyword glued into a word of the kernel name ("DmaI_prefetch Cmpt Exec", "xDmaO_y Cmpt Prep") is part of
+            # that name, not a phase marker: the phase is still the ' <kw>' suffix
+            glued = pre.replace("DmaI", "").replace("DmaO", "") if not any((" " + w) in (" " + pre) for w in ("DmaI", "DmaO")) \
+                else pre
+            if any(w in glued for w in PH):
                 return None
             return (k, k + 1, kw)
     if any(w in name for w in PH):
@@ -504,8 +508,9 @@ def rand_name(r):
 
 
 def canon_name(r, ki=None):
-    pre = r.choice(["k%d" % (ki if ki is not None else r.randint(0, 99)), "matmul_7 fused", "a b", "x", "add-12"])
-    if r.random() < 0.15:
+    pre = r.choice(["k%d" % (ki if ki is not None else r.randint(0, 99)), "matmul_7 fused", "a b", "x", "add-12",
+                    "xDmaI_prefetch", "pre_DmaO2"])
+    if r.random() < 0.15 and "Dma" not in pre:
         return pre + r.choice([" other", "", " Cmpt", " Wait", " Dma"])
     return pre + " " + r.choice(PH)
 
